@@ -131,7 +131,7 @@ def decimal_only(R):
     from rules import CallGuard, CallSink, closures_passed, returned_directly
     F = R.F
     mod = [b for b in F.bodies.values() if b.crate == "ant_evm" and (b.path.startswith(AMT) or b.path.startswith("<" + AMT)) and "::tests::" not in b.path]
-    lax, radix_sites = [], []
+    lax, radix_sites, other = [], [], []
     for b in mod:
         for c in b.calls_raw:
             nc = c["ncallee"] or ""
@@ -141,6 +141,16 @@ def decimal_only(R):
                 lax.append((b, c))
             if nc.endswith("::from_str_radix") and "ruint" in nc:
                 radix_sites.append((b, c))
+            elif nc == "core::str::<impl str>::parse" or nc.endswith("::from_str_radix") or (nc.endswith("FromStr>::from_str") and "AttoTokens" not in nc):
+                other.append((b, c))
+    # the all-digits test: Iterator::all over the bytes/chars with a closure whose verdict is is_ascii_digit
+    def digits_pred(bd, blk, t):
+        for cl in closures_passed(F, bd, t):
+            prep(cl)
+            if any(x["term"]["k"] == "call" and (x["term"]["ncallee"] or "").endswith("::is_ascii_digit") and returned_directly(cl, x["term"]["d"]) for x in cl.blocks):
+                return True
+        return False
+
     for b, c in lax:
         R.viol("C16.parse.decimal", "radix-prefix-parser:%s" % R.root_path(b).split("::")[-1],
                "%s parses a part of the amount with ruint's FromStr, which accepts 0x/0o/0b prefixes and ignores `_` (non-decimal strings are accepted, e.g. \"0x10\", \"1.5_\")" % R.root_path(b), b, c["line"])
@@ -153,20 +163,25 @@ def decimal_only(R):
             R.viol("C16.parse.decimal", "radix-not-10:%s" % R.root_path(b).split("::")[-1], "from_str_radix is not called with the literal radix 10 in %s" % b.path, b, c["line"])
         body = F.body(b.path)
         prep(body)
-        # the all-digits test: Iterator::all over the bytes/chars with a closure whose verdict is is_ascii_digit
-        def digits_pred(bd, blk, t):
-            for cl in closures_passed(F, bd, t):
-                prep(cl)
-                if any(x["term"]["k"] == "call" and (x["term"]["ncallee"] or "").endswith("::is_ascii_digit") and returned_directly(cl, x["term"]["d"]) for x in cl.blocks):
-                    return True
-            return False
         gd = CallGuard(["*core::iter::traits::iterator::Iterator>::all", "core::iter::traits::iterator::Iterator::all"], ("true",), "all characters are ASCII digits", arg_pred=digits_pred)
         # the same test as an explicit loop over the characters
         from rules import ForallGuard
         gd_loop = ForallGuard(None, ["*::is_ascii_digit"], ("true",), "every character passed is_ascii_digit", source_calls=["core::str::<impl str>::bytes", "core::str::<impl str>::chars"])
         if not R.gate("C16.parse.digits", body, CallSink("*::from_str_radix"), [[gd, gd_loop]], descr="from_str_radix only on a string of ASCII digits (it skips `_`)"):
             ok = False
-    R.inst("C16.parse.decimal", "K1 forbidden-callee", "amount parts are parsed as decimal digits only (no ruint FromStr; from_str_radix(_, 10))", len(radix_sites) + len(lax), ok)
+    # any other text-to-number routine (a `u64` fast path, say) has an accepted language of its own — `u64::from_str` takes a leading
+    # `+` — so it, too, may only see a string that passed the all-digits test
+    for b, c in other:
+        if (b, c) in lax:
+            continue
+        body = F.body(b.path)
+        prep(body)
+        gd = CallGuard(["*core::iter::traits::iterator::Iterator>::all", "core::iter::traits::iterator::Iterator::all"], ("true",), "all characters are ASCII digits", arg_pred=digits_pred)
+        from rules import ForallGuard
+        gd_loop = ForallGuard(None, ["*::is_ascii_digit"], ("true",), "every character passed is_ascii_digit", source_calls=["core::str::<impl str>::bytes", "core::str::<impl str>::chars"])
+        if not R.gate("C16.parse.digits.other", body, CallSink(c["ncallee"]), [[gd, gd_loop]], descr="every other text-to-number call (%s) only on a string of ASCII digits" % c["ncallee"].split("::")[-1]):
+            ok = False
+    R.inst("C16.parse.decimal", "K1 forbidden-callee", "amount parts are parsed as decimal digits only (no ruint FromStr; from_str_radix(_, 10))", len(radix_sites) + len(lax) + len(other), ok)
 
 
 def whole_input(R):
